@@ -6,7 +6,7 @@
    every theorem quantifies over ALL histories (arbitrary length, arbitrary Z values on the data inputs) and all
    widths / depths / delays / moduli / reset values. *)
 From V Require Import Base.Bits Gen.Seq Model.SeqBlocks Spec.C09.
-From V Require Import Proofs.C09.Reg Proofs.C09.Counters Proofs.C09.ModCounter Proofs.C09.Delay Proofs.C09.Mem Proofs.C09.Shift.
+From V Require Import Proofs.C09.Reg Proofs.C09.Counters Proofs.C09.ModCounter Proofs.C09.Delay Proofs.C09.Mem Proofs.C09.Shift Proofs.C09.SpecSanity.
 
 (* ---- Reg: after every edge q is the state of the reference machine (reset = 1 > enable <> 0 > hold), for every
    width, reset value (also negative / oversized: stored unmasked, shown masked) and optional-port configuration *)
@@ -26,11 +26,24 @@ Proof. vm_compute. auto. Qed.
 Theorem C09_treg_refines : forall wq (he hr : bool) (h : list (Z * Z * Z)), 1 <= wq ->
   cell_q (run (treg_m wq he hr) (cell0 0) h) = run (treg_spec he hr) 0 h.
 Proof. exact treg_refines. Qed.
+Example C09_treg_nonvacuous :
+  map (fun h => cell_q (run (treg_m 1 true true) (cell0 0) h)) [[(1,1,0)]; [(1,1,0); (1,0,0)]; [(1,1,0); (0,1,0); (1,1,0)]; [(1,1,0); (1,1,1)]] = [1; 1; 0; 0].
+Proof. vm_compute. reflexivity. Qed.
 
 (* ---- Counter: q' = 0 | (q+1) mod 2^w | q *)
 Theorem C09_counter_refines : forall w (hi hr : bool) (h : list (Z * Z)), 1 <= w ->
   cell_q (run (counter_m w hi hr) (cell0 0) h) = run (counter_spec w hi hr) 0 h.
 Proof. exact counter_refines. Qed.
+Example C09_counter_nonvacuous :
+  map (fun k => cell_q (run (counter_m 2 true true) (cell0 0) (repeat (0, 1) k ++ [(0, 0)]))) (seq 0 6) = [0; 1; 2; 3; 0; 1] /\
+  cell_q (run (counter_m 2 true true) (cell0 0) [(0, 1); (0, 1); (1, 1)]) = 0.
+Proof. vm_compute. auto. Qed.
+
+(* the reference counters in closed form when free-running: k mod 2^w, k mod m *)
+Theorem C09_counter_spec_free : forall w k, 0 <= w -> run (counter_spec w true false) 0 (repeat (0, 1) k) = Z.of_nat k mod 2 ^ w.
+Proof. exact counter_spec_free. Qed.
+Theorem C09_modcounter_spec_free : forall m k, 0 < m -> run (modcounter_spec m) 0 (repeat (0, 1) k) = Z.of_nat k mod m.
+Proof. exact modcounter_spec_free. Qed.
 
 (* ---- ModuloCounter: q follows the mod-m counter, q < m always, carry exactly in state m-1 *)
 Theorem C09_modulo_counter_refines : forall w m (h : list (Z * Z)), 1 <= w -> 1 <= m <= 2 ^ w ->
@@ -51,6 +64,9 @@ Proof. exact modcounter_guard_needed. Qed.
 Theorem C09_stepup_refines : forall w (hr : bool) (h : list (Z * Z * Z)), 1 <= w ->
   cell_q (run (stepup_m w hr) (cell0 0) h) = run (stepup_spec w hr) 0 h.
 Proof. exact stepup_refines. Qed.
+Example C09_stepup_nonvacuous :
+  cell_q (run (stepup_m 3 true) (cell0 0) [(0, 1, 3); (0, 1, 3); (0, 0, 3); (0, 1, 3)]) = 1.
+Proof. vm_compute. reflexivity. Qed.
 
 (* ---- DelayLine: the output is the value sampled `delay` enabled edges ago (since the last reset), for EVERY delay *)
 Theorem C09_delayline_refines : forall w wr (he hr : bool) delay (h : list (Z * Z * Z)) a_now, 0 <= w -> 0 <= wr ->
@@ -61,6 +77,10 @@ Theorem C09_delayline_cells : forall w (he hr : bool) delay (h : list (Z * Z * Z
   map cell_q (run (delay_m w he hr) (delay_init delay) h) =
   map (fun k => nth k (run (delay_log he hr) [] h) 0 mod 2 ^ w) (seq 0 delay).
 Proof. exact delay_cells_refine. Qed.
+Example C09_delayline_nonvacuous :
+  map (fun k => delay_out 4 (run (delay_m 4 true true) (delay_init 2) (firstn k [(5,1,0); (6,0,0); (7,1,0); (8,1,0); (9,1,1); (10,1,0)])) 0)
+      (seq 0 7) = [0; 0; 0; 5; 7; 0; 0].
+Proof. vm_compute. reflexivity. Qed.
 
 (* ---- PipelinePhase: after every edge each lane shows the input sampled at that edge (0 under reset) *)
 Theorem C09_pipeline_refines : forall ws (h : list (list Z * Z)) ins reset,
@@ -106,6 +126,9 @@ Theorem C09_shiftreg_outputs : forall w depth (h : list (Z * Z * Z * Z)), 0 <= w
   srb_left_out w (run (srb_m w) (srb_init depth) h) = hd 0 (run (srb_spec w) (repeat 0 depth) h) /\
   srb_right_out w (run (srb_m w) (srb_init depth) h) = last (run (srb_spec w) (repeat 0 depth) h) 0.
 Proof. exact shiftreg_outputs. Qed.
+Example C09_shiftreg_nonvacuous :
+  map cell_q (run (srb_m 4) (srb_init 3) [(1,9,0,1); (2,9,0,1); (3,9,1,1); (4,9,0,0)]) = [1; 0; 9].
+Proof. vm_compute. reflexivity. Qed.
 
 (* ---- Stack_ShiftRegister: any push/pop sequence behaves like a LIFO truncated to depth (pop wins over push,
    pop on empty gives 0, push on full drops the oldest); the cells are the abstract stack padded with zeros *)
@@ -119,6 +142,23 @@ Example C09_stack_nonvacuous :
   map (fun k => stack_dout (run (stack_m 2) (stack_init 3) (firstn k [(1,1,0);(2,1,0);(3,1,0);(1,1,0);(0,0,1);(0,0,1);(2,1,1);(0,0,1)])))
       (seq 0 9) = [0;0;0;0;0;1;3;2;0].
 Proof. split; [repeat (apply Forall_cons; [unfold ctl_ok; lia|]); apply Forall_nil | vm_compute; reflexivity]. Qed.
+
+(* the reference stack is a LIFO: push then pop returns the pushed value and restores the stack; a full stack drops its oldest entry *)
+Theorem C09_stack_spec_push_pop : forall w depth stk dout x y p, (length stk < depth)%nat ->
+  stack_spec w depth (stack_spec w depth (stk, dout) (x, 1, 0)) (y, p, 1) = (stk, x mod 2 ^ w).
+Proof. exact stack_spec_push_pop. Qed.
+Theorem C09_stack_spec_push_full : forall w depth stk dout x, length stk = depth -> (1 <= depth)%nat ->
+  fst (stack_spec w depth (stk, dout) (x, 1, 0)) = (x mod 2 ^ w) :: removelast stk.
+Proof. exact stack_spec_push_full. Qed.
+
+(* and while the ideal UNBOUNDED stack never holds more than depth elements, the bounded reference stack is the ideal one:
+   together with C09_stack_refines, the block then pops exactly what an ideal LIFO pops *)
+Theorem C09_stack_spec_is_ideal : forall w depth h s, never_above w depth s h ->
+  run (stack_spec w depth) s h = run (ustack_spec w) s h.
+Proof. exact stack_spec_is_ideal. Qed.
+Example C09_stack_spec_is_ideal_nonvacuous : never_above 4 2 ([], 0) [(7,1,0); (9,1,0); (0,0,1); (3,1,0); (0,0,1); (0,0,1)] /\
+  snd (run (ustack_spec 4) ([], 0) [(7,1,0); (9,1,0); (0,0,1); (3,1,0); (0,0,1); (0,0,1)]) = 7.
+Proof. cbn. repeat split; lia. Qed.
 
 (* ---- SynchronousMemory: refinement to a total map; a read returns the content BEFORE the same edge's write *)
 Theorem C09_syncmem_refines : forall aw wr (h : list (Z * Z * Z * Z)), 0 <= aw -> 0 <= wr -> Forall (addr_ok aw) h ->
@@ -139,6 +179,8 @@ Proof. split; [repeat (apply Forall_cons; [unfold addr_ok; lia|]); apply Forall_
 (* ---- AutoReset: high after edges 1 and 2 only *)
 Theorem C09_autoreset_refines : forall w k, 0 <= w -> ar_out (iter k (ar_step w) ar_init) = autoreset_spec w k.
 Proof. exact autoreset_refines. Qed.
+Example C09_autoreset_nonvacuous : map (fun k => ar_out (iter k (ar_step 1) ar_init)) (seq 0 6) = [0; 1; 1; 0; 0; 0].
+Proof. vm_compute. reflexivity. Qed.
 
 Print Assumptions C09_reg_refines.
 Print Assumptions C09_reg_value_refines.
@@ -161,3 +203,8 @@ Print Assumptions C09_stack_refines.
 Print Assumptions C09_syncmem_refines.
 Print Assumptions C09_syncmem_read_before_write.
 Print Assumptions C09_autoreset_refines.
+Print Assumptions C09_stack_spec_push_pop.
+Print Assumptions C09_stack_spec_push_full.
+Print Assumptions C09_stack_spec_is_ideal.
+Print Assumptions C09_counter_spec_free.
+Print Assumptions C09_modcounter_spec_free.
